@@ -16,7 +16,7 @@ while true; do
   esac
 done
 PATCH=$(readlink -f "$1"); shift
-NAME=$(basename "$PATCH" .diff)
+NAME=$(basename "$PATCH" .diff); [ "$NAME" = patch ] && NAME=$(basename "$(dirname "$PATCH")")
 export CARGO_NET_OFFLINE=true
 SCR=$(mktemp -d /tmp/cwmt-mut-XXXXXX)
 OUT=$(mktemp -d /tmp/cwmt-out-XXXXXX)
